@@ -47,6 +47,17 @@ def gen(rs: int, tier: str, index: int) -> dict:
         if m.get("kind", "valid") == "valid" and r.random() < 0.5:
             m["labels"] = {"li": ["int", str(r.randint(-5, 10**6))], "ls": ["str", r.choice(["", "x", "héllo", "a b"])],
                            "lb": ["bool", r.random() < 0.5], "lf": ["float", repr(r.choice([0.5, -1.25, 1e10]))]}
+    if r.random() < 0.3:
+        # a client-side pre_send middleware attaches labels (an origin tag, the timeout) after the kicker typed the labels:
+        # they travel without a labels_types entry and must still reach the task, the timeout logic and the stored result
+        s["config"]["client_label_adder"] = True
+        for m in s["messages"]:
+            if m.get("kind", "valid") != "valid":
+                continue
+            if r.random() < 0.6:
+                m["mw_labels"] = {"origin": r.choice(["api", "", "cron"]), "trace": str(r.randint(0, 10**6))}
+            if m.get("timeout") is not None and r.random() < 0.6:
+                m["timeout_untyped"] = True
     if r.random() < 0.1 and s["messages"]:
         # the task name of template 0 is registered again half-way with a function of the other kind (sync <-> async)
         times = sorted(m["send_at_us"] for m in s["messages"])
@@ -146,6 +157,11 @@ def oracle(script: dict, run: Any) -> List[Violation]:
         want_labels = dict(m.get("labels") or {})
         if tmo is not None:
             want_labels["timeout"] = ["float", repr(float(tmo))]
+        if script["config"].get("client_label_adder"):
+            for name, val in (m.get("mw_labels") or {}).items():
+                want_labels[name] = ["str", val]
+            if tmo is not None and m.get("timeout_untyped"):
+                want_labels["timeout"] = ["str", repr(float(tmo))]
         if user_labels(s["labels"]) != want_labels:
             out.append(Violation("C07/labels-differ", f"delivery {d}: result labels {user_labels(s['labels'])} != message labels {want_labels}"))
         # a failing backend never prevents completion
